@@ -141,16 +141,16 @@ PROPS = {
         'must_observe': ['spans_checked_with_coordinates', 'build_reports_checked', 'display_calls', 'call_site_positions_checked', 'faults_spread_over_lines'],
     },
     'C19': {
-        'scale': {'quick': 3, 'thorough': 3},
+        'scale': {'quick': 2, 'thorough': 3},
         'level': 'exploration',
         'technique': 'round-trip monitor over a family of harness-defined serde types (by value and by reference) + refusal monitor for unrepresentable keys + print prediction by an independent model serializer',
         'claim': '72 Rust types built from the serde data model (all integer widths, f32/f64, bool, char, String, unit, Option, Vec, tuples 1-4, BTreeMap/HashMap with String/every integer width/char/bool/unit-enum keys, '
                  'named/tuple/newtype/unit structs, enums with unit/newtype/tuple/struct variants, nesting depth <= 4) are generated with boundary numbers, multi-byte text and empty/50-entry collections; each instance must '
                  'deserialize back to itself from Value and from &Value (floats by bits), print exactly what a second, independent Serializer into the model value type predicts (integers exact, maps sorted), identically through '
-                 'Context::insert, insert_value(converted) and from_serialize; maps with float/tuple/struct/unit/none/bytes/seq/map keys must be refused.',
+                 'Context::insert, insert_value(converted) and from_serialize; maps with float/tuple/struct/unit/none/bytes/seq/map keys must be refused. Context::from_serialize of top-level maps with integer/bool/char/string keys must equal inserting each entry under the key's text, and a top level that is no map or struct must be refused.',
         'note': 'Option<T> is only generated for payloads that cannot themselves serialise to none (the collapse the property excludes); the model serializer shares only the serde traits with the engine',
         'rule': "one evaluation = one conversion, read-back or render; a cell = (type, by-value/by-reference) for round trips and (bad key kind, top/nested) for refusals",
-        'must_observe': ['roundtrips_ok', 'print_comparisons', 'unrepresentable_keys_refused'],
+        'must_observe': ['roundtrips_ok', 'print_comparisons', 'unrepresentable_keys_refused', 'top_level_maps_compared', 'non_map_top_levels_refused'],
     },
     'C18': {
         'scale': {'quick': 1.5, 'thorough': 1},
@@ -195,13 +195,13 @@ PROPS = {
         'scale': {'quick': 4, 'thorough': 3},
         'level': 'exploration',
         'technique': 'history monitor against a sequential model of the template set: snapshot comparison (hook digest of all derived state + public observables) after every failed call, fresh-instance comparison after every successful call and reconfiguration',
-        'claim': 'Histories of 1-25 calls over 9 names and 35 template kinds: single and batched adds, valid and invalid in every listed way (syntax error early/late, missing parent, extends and include cycles, unknown filter/test/function/component/include, '
+        'claim': 'Histories of 1-25 calls over 9 names and 35 template kinds: single and batched adds (one batch in four through add_template_files on scratch files, a third of those with a missing or non-UTF-8 file, which must fail the whole call), valid and invalid in every listed way (syntax error early/late, missing parent, extends and include cycles, unknown filter/test/function/component/include, '
                  'duplicate component at equal priority, orphan block, duplicate name inside a batch), replacements of parents, include targets, component providers and fallback-shadowed templates, autoescape_on interleaved, 0-2 fallback prefixes. '
                  'After each failed call the digest (parents, autoescape flags, size hints, block lineage origins, global component table, configuration) and the observables (names, renders, block renders, component renders and definitions) must equal the pre-call snapshot; '
                  'after each successful call and each reconfiguration they must equal those of a fresh instance given the model\'s set in one shuffled batch, with the suffixes configured before or after the add.',
         'note': 'errors are compared by their first line; the digest identifies chunks by origin template and length (instruction listings are not stable across compilations because keyword arguments are compiled in hash order)',
         'rule': "one evaluation = one add call or one fresh-instance build; a cell = (failure message class, batch size, replacing/new names) for failed calls and (set size, prefixes, suffix-before/after) for fresh comparisons",
-        'must_observe': ['failed_calls_checked_for_rollback', 'fresh_instance_comparisons', 'successful_calls', 'autoescape_reconfigurations'],
+        'must_observe': ['failed_calls_checked_for_rollback', 'fresh_instance_comparisons', 'successful_calls', 'autoescape_reconfigurations', 'calls_through_add_template_files', 'file_faults_injected'],
     },
     'C11': {
         'scale': {'quick': 4, 'thorough': 15},
@@ -266,7 +266,7 @@ PROPS = {
         'technique': 'two observation modes over generated routing programs: default escaper with disjoint data/text alphabets (no raw special may reach the output), and a marking escape function installed through the public set_escape_fn whose private-use brackets give the exact number of escapings of every data character, with an event count of escaper calls',
         'claim': 'A route generator sends a source (context string, map field, array item, nested field, map key reached by a key/value loop or `keys`, literal; incl. strings made only of specials) through 1-6 routing steps drawn from 32 kinds (set, loops in captures, set-blocks, filter sections, includes, component arguments/rest/bodies, ~, ternary, or, index, negative index, slice, default, first, join, upper, replace, every other text-returning built-in filter, array and map filters, loop variables, key/value loops, comprehensions, split, map-literal field, function result, safe followed by a rebuilding step) '
                  'to a print site hitting both sinks (expression write and fused variable-path write), inside and outside captures, directly printed array/map containers, `| safe`, optionally through blocks and super(). Mode B asserts depth >= 1 everywhere when autoescape is on and `safe` unused, exactly 1 in pass-through routes (no double escaping), '
-                 'exactly 0 for `| safe`, and depth 0 with zero logged escaper calls when the template is not autoescaped (suffix not matching, custom suffix lists set before or after adding, render_str flag). Every eighth case renders a general generated program (markup-free text, no safe, hostile data) with the default escaper.',
+                 'exactly 0 for `| safe`, for a filter and a function registered as safe (trait `is_safe`), and for a safe filter reached through `State::call_filter`, while the same filter/function not registered as safe is escaped, and depth 0 with zero logged escaper calls when the template is not autoescaped (suffix not matching, custom suffix lists set before or after adding, render_str flag). Every eighth case renders a general generated program (markup-free text, no safe, hostile data) with the default escaper.',
         'note': 'the escape function also validates that its input is valid UTF-8 (it is produced with from_utf8_unchecked); mixed on/off modes inside one render are not generated',
         'rule': "one evaluation = one render; a cell = (ordered routing step kinds, sink, autoescape on/off, configuration)",
         'must_observe': ['mode_a_outputs_checked', 'escape_calls_logged', 'data_characters_classified', 'pass_through_programs', 'safe_programs', 'not_autoescaped_programs', 'per_call_flag_checks'],
